@@ -5,6 +5,7 @@ an `nr × nc` array, `∀ m ∈ s.mines, 0 ≤ m` that mine locations are non-ne
 generator draws them from `range(rows*cols)`; a negative index would be wrapped by the JAX scatter).
 -/
 import JumanjiModel.Env.Minesweeper.Lemmas
+import JumanjiModel.Env.Minesweeper.BoundsLemmas
 open Jm Jx Minesweeper
 
 namespace Props.C04
@@ -144,3 +145,32 @@ true number of mines, the step count) -/
 theorem minesweeper_obs_faithful (cfg : Cfg) (s : State) (r c : Int) (hm : s.mines.length = cfg.numMines) :
     (step cfg s r c).2.obs = observe (step cfg s r c).1 := Minesweeper.obs_faithful cfg s r c hm
 end Props.C12
+
+namespace Props.C01
+open PzB
+/-- the observation returned by `reset` on a generated instance (`InstanceOK`: fresh board, `num_mines` distinct mine
+locations on the board): every leaf listed in `obsBounds cfg` is present and within its interval: `board` ∈ [-1, 8],
+`action_mask` ∈ [0,1], `num_mines` = the configured constant, `step_count` ∈ [0, rows*cols − num_mines]
+(in particular the interval is non-empty: num_mines ≤ rows*cols) -/
+theorem minesweeper_reset_obs_in_bounds (cfg : Cfg) (s : State) (h : InstanceOK cfg s) :
+    ObsInBounds (obsBounds cfg) (obsLeaves (resetTimeStep cfg s).obs) := Minesweeper.reset_obs_in_bounds cfg s h
+
+/-- the same for `step` from every `Consistent` state (the C07 invariant, preserved while the episode runs:
+`minesweeper_step_consistent`) that is not yet solved (the episode has not ended), for every square of the action space —
+unexplored or already explored, mined or not — including the terminal step.  `step_count ≤ rows*cols − num_mines` is the
+counting argument `explored + mines ≤ squares` (explored squares are not mines while the episode runs). -/
+theorem minesweeper_step_obs_in_bounds (cfg : Cfg) (s : State) (hcs : Consistent cfg s) (r c : Nat)
+    (hr : r < cfg.numRows) (hc : c < cfg.numCols) (hns : isSolved s = false) :
+    ObsInBounds (obsBounds cfg) (obsLeaves (step cfg s r c).2.obs) :=
+  Minesweeper.step_obs_in_bounds cfg s hcs r c hr hc hns
+
+/-- the counting fact behind the `step_count` bound -/
+theorem minesweeper_explored_add_mines_le (cfg : Cfg) (s : State) (hcs : Consistent cfg s) :
+    explored s.board + cfg.numMines ≤ cfg.numRows * cfg.numCols :=
+  Minesweeper.explored_add_mines_le cfg s hcs.1 hcs.2.1 hcs.2.2.2.1
+
+/-- without "not yet solved" the bound fails in the model: on a solved 1x2 board with one mine, exploring the mine gives
+step_count = 2 > 1*2 − 1 (such a step is after LAST in the real environment) -/
+example : Consistent ⟨1, 2, 1, 1, 0, 0⟩ ⟨[[1, -1]], 1, [1]⟩ ∧ isSolved ⟨[[1, -1]], 1, [1]⟩ = true ∧
+    (step ⟨1, 2, 1, 1, 0, 0⟩ ⟨[[1, -1]], 1, [1]⟩ 0 1).2.obs.stepCount = 2 := by decide
+end Props.C01
